@@ -101,7 +101,7 @@ CHECKS = {
     'C14': "Proved: path arithmetic of entries on normalised component lists. Tie: the five accessors of every yielded entry. Oracle: join(root, relative) = path, depth = components.",
     'C15': "Proved: every produced entry lies in the depth window; for glob walks with a prefix the starting directory, the prefix components and the window at the pivot are part of the model and every entry's depth from the directory given lies in the configured window (C15_glob_walk_in_window; upper bound when the window reaches the pivot - known class max_below_prefix). Tie/Oracle: windows also handed over as (max, min); all (min,max) pairs x both link behaviours on trees with links vs independent traversal.",
     'C16': "Proved: corollaries of the refinement: permutation invariance of yields, monotone tags, observe-once. Tie/Oracle: all permutations of generated stacks.",
-    'C20': "Proved: error items pass every layer unchanged and in place (model). Tie/Oracle: trees with unreadable directories / dangling / re-entrant links vs the model "
+    'C20': "Proved: error items pass every layer unchanged and in place (model); the entries of a walk over a tree with faults are item for item the walk of the healed tree (C20_entries_are_the_fault_free_walk), which has no error item. Tie/Oracle: trees with unreadable directories / dangling / re-entrant links vs the model "
            "and vs a fault-free walk of the readable part. Partial: the OS/walkdir fault behaviour is trusted.",
 }
 
